@@ -248,7 +248,7 @@ theorem sumDigits_mod (e : Int) (l : List Nat) (i : Nat) (acc : N) :
     Poetic.sumDigits e (l.map (· % 10)) i acc = Poetic.sumDigits e l i acc := by
   induction l generalizing i acc with
   | nil => rfl
-  | cons d l ih => simp [Poetic.sumDigits, ih]
+  | cons d l ih => simp [Poetic.sumDigits, Poetic.digitTerm, ih]
 
 end
 
